@@ -72,8 +72,17 @@ def make_invocation(rng, world, with_faults):
         macros = rng.sample(macro_files, rng.randrange(1, min(2, len(macro_files)) + 1))
     elif macros and mr < 0.30 and macro_files:
         macros = macros + [rng.choice(macro_files)]
-    parts = [["-p" if rng.random() < 0.7 else "--pattern", e["rel"]],
-             [("-b" if rng.random() < 0.7 else "--binary") if binary else ("-s" if rng.random() < 0.7 else "--assembly"), inp]]
+    def spell(short, long_, value):
+        c = rng.random()
+        if c < 0.55:
+            return [short, value]
+        if c < 0.8:
+            return [long_, value]
+        if c < 0.9:
+            return [long_ + "=" + value]
+        return [short + value]
+
+    parts = [spell("-p", "--pattern", e["rel"]), spell("-b", "--binary", inp) if binary else spell("-s", "--assembly", inp)]
     if all_matches:
         parts.append(["--all-matches"])
     if only_addr:
@@ -94,10 +103,10 @@ def make_invocation(rng, world, with_faults):
     usage = None
     u = rng.random()
     if u < 0.04:
-        argv = [a for p in parts if p[0] not in ("-p", "--pattern") for a in p]
+        argv = [a for p in parts if not p[0].startswith(("-p", "--pattern")) for a in p]
         usage = "no-pattern"
     elif u < 0.08:
-        argv = [a for p in parts if p[0] not in ("-s", "-b", "--assembly", "--binary") for a in p]
+        argv = [a for p in parts if not p[0].startswith(("-s", "-b", "--assembly", "--binary")) for a in p]
         usage = "no-input"
     elif u < 0.12:
         other = rng.choice(listings + binaries)
@@ -181,7 +190,7 @@ def judge(op, got, ref_bool, ref_list):
 def _optsig(op):
     a = op["argv"]
     bits = []
-    bits.append("b" if ("-b" in a or "--binary" in a) else "s")
+    bits.append("b" if any(x.startswith("--binary") or (x.startswith("-b") and not x.startswith("--")) for x in a) else "s")
     if "--all-matches" in a:
         bits.append("all")
     if "--return_only_address" in a:
